@@ -30,6 +30,11 @@ def gen_dags(tier, seed):
                 if (h + seed) % 6 and len(edges) < 7:
                     continue
             yield {"nodes": names, "edges": edges}
+    # names that contain one another ('rain' / 'rain_prev'): a bare-string `observed` must be read as one node, never as a container of characters
+    for n in (3, 4) if tier != "quick" else (3,):
+        names = ["rain", "rain_prev", "wet_rain_prev", "wet"][:n]
+        for edges in O.all_dags(n, names):
+            yield {"nodes": names, "edges": edges}
     rng = O.mk_rng(seed, "c08")
     for k in range(20 if tier == "quick" else 200):
         n = rng.randint(5, 7)
@@ -64,6 +69,11 @@ def check_active_trails(case):
                         if not isinstance(got, dict) or set(got) != {s} or set(got[s]) != want:
                             return {"key": "active_trail_nodes:result", "what": f"start={s} observed={kind}{sorted(Z)} latents={latents} "
                                     f"include_latents={incl}: got {got}, path-based definition gives {sorted(want)}"}
+            if len(Z) == 1 and not latents:
+                for s in exp:
+                    for t in nodes:
+                        if t != s and t != Z[0] and bool(g.is_dconnected(s, t, observed=Z[0])) != (t in exp[s]):
+                            return {"key": "is_dconnected:bare-observed", "what": f"is_dconnected({s},{t}, observed={Z[0]!r}) != path-based answer {t in exp[s]}"}
             if len(Z) == 1:
                 got = g.active_trail_nodes(list(exp), observed=Z[0])
                 if {k: set(v) for k, v in got.items()} != {s: exp[s] - set(latents) for s in exp}:
@@ -141,6 +151,18 @@ def check_independencies(case):
         want = {(frozenset([v]), frozenset(nd - pa), frozenset(pa))} if nd - pa else set()
         if got != want:
             return {"key": "local_independencies:result", "what": f"{v}: got {got} want {want}"}
+    # several variables in one call: the union of the single-variable answers, whatever the request order / container
+    def single(v):
+        nd = set(nodes) - O.descendants_or_self(edges, [v])
+        pa = set(O.parents_of(edges, v))
+        return {(frozenset([v]), frozenset(nd - pa), frozenset(pa))} if nd - pa else set()
+    for r in (2, 3):
+        for vs in itertools.permutations(nodes, r):
+            want = set().union(*[single(v) for v in vs])
+            for arg in (list(vs), tuple(vs)):
+                got = _assertions(g.local_independencies(arg))
+                if got != want:
+                    return {"key": "local_independencies:multi", "what": f"{arg}: got {got} want {want}"}
     got = _assertions(g.get_independencies())
     # soundness: every assertion is a d-separation; completeness: for every (start, Z) the maximal separated set is listed
     for e1, e2, e3 in got:
@@ -231,9 +253,10 @@ def groups(tier):
         Group("active_trails", gen_dags, check_active_trails, nontrivial, engine="E3",
               bound="all DAGs <= 4 nodes (thorough: + 1/6 of the 29281 five-node DAGs and all with >= 7 edges), every start, every observed "
                     "subset as list/set/tuple, latent subsets of size <= 1, both include_latents; 20 (200) seeded random DAGs on 5-7 nodes "
-                    "with observed sets of size <= 2"),
+                    "with observed sets of size <= 2; all 3-node (thorough: 4-node) DAGs over names that contain one another; "
+                    "single observed node also passed as a bare string"),
         Group("graph_views", gen_dags, check_graph_views, nontrivial, engine="E3", bound="same DAG enumeration; every node / node subsets of size <= 2"),
-        Group("independencies", gen_dags, check_independencies, nontrivial, engine="E3", bound="all DAGs <= 4 nodes"),
+        Group("independencies", gen_dags, check_independencies, nontrivial, engine="E3", bound="all DAGs <= 4 nodes; local_independencies for every single variable and every ordered 2-/3-tuple (list and tuple)"),
         Group("minimal_dseparator", gen_dags, check_minimal_dseparator, nontrivial, engine="E3",
               bound="same DAG enumeration; every node pair; latent subsets of size <= 2 (<= 4 nodes), two 3-subsets on 5 nodes"),
         Group("naive_bayes", gen_naive, check_naive_bayes, nontrivial, engine="E3", bound="NaiveBayes models with 1..3 features, multi-character names"),
